@@ -196,6 +196,12 @@ func expandPredicateHelpersKeep(c *chk.Ctx, conds []ir.Cond, depth int, keep fun
 						}
 						for i, e := range vals {
 							_, isAlloc := e.(*ssa.Alloc)
+							if !isAlloc {
+								isAlloc = nonNilValue(e)
+							}
+							// a return of the nil constant can only explain a nil result, a fresh
+							// allocation only a non-nil one; any other returned value may be either,
+							// so its path is a possible explanation both ways (sound as a disjunction)
 							switch {
 							case ir.IsNilConst(e):
 								if wantNil {
@@ -206,7 +212,11 @@ func expandPredicateHelpersKeep(c *chk.Ctx, conds []ir.Cond, depth int, keep fun
 									repl = append(repl, expandPredicateHelpersKeep(c, conds[i], depth+1, keep)...)
 								}
 							default:
-								known = false
+								if _, isParam := e.(*ssa.Parameter); isParam {
+									known = false
+								} else {
+									repl = append(repl, expandPredicateHelpersKeep(c, conds[i], depth+1, keep)...)
+								}
 							}
 						}
 					}
@@ -228,6 +238,24 @@ func expandPredicateHelpersKeep(c *chk.Ctx, conds []ir.Cond, depth int, keep fun
 		alts = next
 	}
 	return alts
+}
+
+// nonNilValue: values that are never nil by construction or contract: an
+// interface made from a concrete value, errors.New / fmt.Errorf results, and
+// loads of package-level sentinel variables.
+func nonNilValue(v ssa.Value) bool {
+	switch x := v.(type) {
+	case *ssa.MakeInterface:
+		return true
+	case *ssa.Call:
+		return ir.IsCallTo(&x.Call, "errors.New", "fmt.Errorf")
+	case *ssa.UnOp:
+		if x.Op == token.MUL {
+			_, isGlobal := x.X.(*ssa.Global)
+			return isGlobal
+		}
+	}
+	return false
 }
 
 func dedupConds(cs []ir.Cond) []ir.Cond {
